@@ -1,2 +1,3 @@
 SPECIFICATION Spec
+INVARIANT MachineAgrees
 CHECK_DEADLOCK FALSE
